@@ -11,7 +11,7 @@ cd $wt
 base=$( [ -f /verif/seeded/.baseline_failed.txt ] && echo 1 )
 run_demo() { (cd /tmp && PYTHONPATH=$wt/src timeout 600 /venv/bin/python $src/demo.py >/dev/null 2>&1; echo $?); }
 clean_rc=$(run_demo)
-git apply $src/patch.diff || { echo "patch does not apply"; git -C /repo worktree remove --force $wt; exit 2; }
+patch -p1 -s < $src/patch.diff || { echo "patch does not apply"; cd /; git -C /repo worktree remove --force $wt; exit 2; }
 mut_rc=$(run_demo)
 PYTHONPATH=$wt/src /venv/bin/python -m pytest -q -p no:cacheprovider -n 6 --timeout=900 --continue-on-collection-errors 2>&1 | grep -E "^FAILED|^ERROR|passed|failed" | sed 's/ - .*//' | sort > /tmp/confirm-$prop-$k.txt
 tail_line=$(grep -E "passed" /tmp/confirm-$prop-$k.txt | tail -1 | sed 's/ in [0-9.]*s.*//')
